@@ -271,10 +271,21 @@ type plyGenMesh struct {
 	hasColor bool
 }
 
+// first-element special values: vertex 0 is the all-zero vector in every attribute; runs of equal consecutive vectors
+var plyZeroFirst, plyRepeatRuns bool
+
+func (c *Ctx) plyRunAt(i int) bool { return plyRepeatRuns && i > 0 && c.Rng.Intn(2) == 0 }
+
 func (c *Ctx) plyV1s(n int, vc plyValueClass, unit bool) []float64 {
 	out := make([]float64, n)
 	for i := range out {
 		out[i] = c.plyVal(vc, unit)
+		if c.plyRunAt(i) {
+			out[i] = out[i-1]
+		}
+		if plyZeroFirst && i == 0 {
+			out[i] = 0
+		}
 	}
 	return out
 }
@@ -282,6 +293,12 @@ func (c *Ctx) plyV2s(n int, vc plyValueClass, unit bool) []vector2.Float64 {
 	out := make([]vector2.Float64, n)
 	for i := range out {
 		out[i] = vector2.New(c.plyVal(vc, unit), c.plyVal(vc, unit))
+		if c.plyRunAt(i) {
+			out[i] = out[i-1]
+		}
+		if plyZeroFirst && i == 0 {
+			out[i] = vector2.New(0., 0.)
+		}
 	}
 	return out
 }
@@ -289,6 +306,12 @@ func (c *Ctx) plyV3s(n int, vc plyValueClass, unit bool) []vector3.Float64 {
 	out := make([]vector3.Float64, n)
 	for i := range out {
 		out[i] = vector3.New(c.plyVal(vc, unit), c.plyVal(vc, unit), c.plyVal(vc, unit))
+		if c.plyRunAt(i) {
+			out[i] = out[i-1]
+		}
+		if plyZeroFirst && i == 0 {
+			out[i] = vector3.New(0., 0., 0.)
+		}
 	}
 	return out
 }
@@ -296,12 +319,26 @@ func (c *Ctx) plyV4s(n int, vc plyValueClass, unit bool) []vector4.Float64 {
 	out := make([]vector4.Float64, n)
 	for i := range out {
 		out[i] = vector4.New(c.plyVal(vc, unit), c.plyVal(vc, unit), c.plyVal(vc, unit), c.plyVal(vc, unit))
+		if c.plyRunAt(i) {
+			out[i] = out[i-1]
+		}
+		if plyZeroFirst && i == 0 {
+			out[i] = vector4.New(0., 0., 0., 0.)
+		}
 	}
 	return out
 }
 
 // structured mesh: topology, size class, attribute subset, index pattern
 func (c *Ctx) plyMesh(vc plyValueClass) plyGenMesh {
+	plyZeroFirst, plyRepeatRuns = c.Rng.Intn(4) == 0, c.Rng.Intn(4) == 0
+	defer func() { plyZeroFirst, plyRepeatRuns = false, false }()
+	if plyZeroFirst {
+		c.Note("values:vertex0-all-zero")
+	}
+	if plyRepeatRuns {
+		c.Note("values:equal-consecutive-runs")
+	}
 	tri := c.Rng.Intn(2) == 0
 	// "one vertex per corner, but the index buffer is not 0..n-1": reordered faces, flipped winding, shared +
 	// unreferenced vertices with vertex count == corner count (a reader that takes this for an unwelded mesh and skips
